@@ -50,6 +50,9 @@ type c06Case struct {
 	// FailAll: the fault is persistent — every write of that connection from the
 	// FailIdx-th multicast write on fails, unicast answers included.
 	FailAll bool
+	// FailUnicast: instead, the first unicast write of the connection fails (one
+	// host that cannot be reached); multicast writes are unaffected.
+	FailUnicast bool
 }
 
 func c06Err(kind string) error {
@@ -334,6 +337,13 @@ func c06Run(t *testing.T, r *vlib.Run, c *c06Case) {
 				k := 0
 				broken := false
 				cn.WriteErr = func(_ int, dst netip.Addr) error {
+					if c.FailUnicast {
+						if !dst.IsMulticast() && !broken {
+							broken = true
+							return c06Err(c.FailKind)
+						}
+						return nil
+					}
 					if dst.IsMulticast() {
 						k++
 						if k-1 == c.FailIdx {
@@ -561,6 +571,27 @@ func TestVerifC06(t *testing.T) {
 						run(&c2)
 					}
 				}
+			}
+		}
+	}
+
+	// One host cannot be reached: the unicast answer to its solicitation fails,
+	// shortly after a multicast RA (the answer to a solicitation from ::).  Whatever
+	// the advertiser does about it, no multicast RA of that connection may follow
+	// the previous one by less than MIN_DELAY_BETWEEN_RAS.
+	for ki, kind := range []string{"nobufs", "op-nobufs", "op-eagain"} {
+		for oi, off := range []time.Duration{600 * vMs, 1200 * vMs, 2 * time.Second} {
+			for mi, min := range []time.Duration{0, 22 * time.Second} {
+				max, base := 4*time.Second, 4*time.Second
+				if min != 0 {
+					max, base = 30*time.Second, 8*time.Second
+				}
+				c := &c06Case{ID: fmt.Sprintf("unicastfail/%s/%d/%d", kind, oi, mi), Min: min, Max: max, FailKind: kind, FailUnicast: true,
+					Evs: []c06Ev{{At: base}, {At: base + off, Unicast: true}, {At: base + off + 5*time.Second}}, Seed: time.Duration(ki*11 + oi*3 + mi)}
+				if r.Mine(c.ID) {
+					r.Count("unicast_failure_scenarios", 1)
+				}
+				run(c)
 			}
 		}
 	}
